@@ -870,4 +870,41 @@ mod verif_replay_interp {
 </scxml>"###;
         assert_eq!(run(parent, &[]), fin("pass"));
     }
+
+    /// C03: an event sent to #_internal is an internal event: it is processed before an external event that was already
+    /// waiting, and in FIFO order with raised events
+    #[test]
+    fn verif_replay_interp_internal_send_is_internal() {
+        let doc = r###"<scxml xmlns="http://www.w3.org/2005/07/scxml" initial="s0" version="1.0" datamodel="rfsm-expression">
+ <state id="s0">
+  <onentry><send event="ext"/><send target="#_internal" event="a"/><raise event="b"/></onentry>
+  <transition event="a" target="s1"/>
+  <transition event="*" target="a_not_first"/>
+ </state>
+ <state id="s1">
+  <transition event="b" target="s2"/>
+  <transition event="*" target="b_not_second"/>
+ </state>
+ <state id="s2">
+  <transition event="ext" target="pass"/>
+ </state>
+ <final id="pass"/><final id="a_not_first"/><final id="b_not_second"/>
+</scxml>"###;
+        assert_eq!(run(doc, &[]), fin("pass"));
+    }
+
+    /// C14 (W3C test 229): an event that comes from an autoforward child is forwarded back to that child as well
+    #[test]
+    fn verif_replay_interp_autoforward_echo() {
+        let doc = r###"<scxml xmlns="http://www.w3.org/2005/07/scxml" initial="s0" version="1.0" datamodel="rfsm-expression">
+ <state id="s0">
+  <onentry><send event="timeout" delay="5s"/></onentry>
+  <invoke type="scxml" id="kid" autoforward="true"><content><scxml xmlns="http://www.w3.org/2005/07/scxml" initial="c0" version="1.0" datamodel="rfsm-expression"><state id="c0"><onentry><send target="#_parent" event="child.to.parent"/></onentry><transition event="child.to.parent" target="c1"/></state><state id="c1"><onentry><send target="#_parent" event="child.got.echo"/></onentry></state></scxml></content></invoke>
+  <transition event="child.got.echo" target="pass"/>
+  <transition event="timeout" target="noecho"/>
+ </state>
+ <final id="pass"/><final id="noecho"/>
+</scxml>"###;
+        assert_eq!(run(doc, &[]), fin("pass"));
+    }
 }
